@@ -595,6 +595,19 @@ V({
     "trusted": ["chalk-recursive SearchGraph / Stack / Cache (abstract)"],
 })
 
+# -------------------------------------------------------------------------- V25
+V({
+    "id": "V25",
+    "title": "slg_table: Table::{push_answer, answer, next_answer_index, enqueue_strand, is_floundered} (chalk-engine/src/table.rs) on the real Table struct",
+    "template": "v25_table.rs",
+    "assumptions": [
+        "V25: rustc_hash::FxHashMap is abstract: a finite-map view with the assumed contracts of get / contains_key / insert / entry and of Entry::{Occupied::get, Vacant::insert} (std HashMap's documented behaviour); Vec and VecDeque are vstd's models",
+        "V25: preconditions of push_answer taken from its own assert / panic and documentation: the table is not floundered; a substitution registered as ambiguous is not re-offered as unambiguous; and the table invariant no_repeats (established by Table::new: no answers) holds on entry",
+        "V25: derive(Clone, PartialEq) on Canonical<AnswerSubst> is structural equality (hashing agrees with it)",
+    ],
+    "trusted": ["rustc_hash / std HashMap (abstract)"],
+})
+
 # ===========================================================================
 GLOBAL_ASSUMPTIONS = [
     "soundness of rustc+Kani's model of core/alloc and of CBMC; soundness of Verus and Z3",
